@@ -15,6 +15,9 @@ extern "C" {
 #ifndef C05_ADD_HOOK
 #define C05_ADD_HOOK(i, v)
 #endif
+#ifndef C05_DSINIT_HOOK
+#define C05_DSINIT_HOOK(self)
+#endif
 enum { V_OTHER = 0, V_UNIT = 1, V_LPROW = 2, V_LPCOL = 3, V_LPROW_UNSCALED = 4, V_LPCOL_UNSCALED = 5 };
 
 template <class T> struct SVectorBase
@@ -45,6 +48,9 @@ template <class T> struct SVectorBase
          v[g_q] = t;
       }
    }
+#ifdef C05_SVECTOR_EXTRA_FILE
+#include C05_SVECTOR_EXTRA_FILE
+#endif
    void copy_from(const SVectorBase<T>& o)
    {
       __CPROVER_assert(o.used <= cap, "DSVector has room for the assigned vector");
@@ -78,7 +84,11 @@ template <class T> struct DSVectorBase : SVectorBase<T>
       this->vals = (T*)gp_dsv; this->idxs = gp_dsi; this->used = 0; this->cap = n;
       this->kind = V_OTHER; this->src = -1; this->neg = false; this->gpos = -1;
       gp_ds_used = &this->used; gp_ds_gpos = &this->gpos;
+      C05_DSINIT_HOOK(this);
    }
+#ifdef C05_DSVECTOR_EXTRA_FILE
+#include C05_DSVECTOR_EXTRA_FILE
+#endif
    /* `DSVectorBase<R> col;` - a second, storage-free vector that only carries provenance (filled by getColVectorUnscaled) */
    DSVectorBase() { this->vals = 0; this->idxs = 0; this->used = 0; this->cap = 0; this->kind = V_OTHER; this->src = -1; this->neg = false; this->gpos = -1; }
    DSVectorBase(int n) { __CPROVER_assert(0 <= n && n <= (g_n > g_nc ? g_n : g_nc), "DSVector(n): n <= max(numRows, numCols)"); init(n); }
